@@ -508,7 +508,7 @@ def bulk_cases(tier):
 
     rnd = random.Random(int(os.environ.get("VERIF_SEED", "1") or 1) * 7919 + 9)
     shapes = ["uniform", "caterpillar", "binary"]
-    for k, n in enumerate([32769, 40000, 65535, 65536, 70000, 256, 257]):
+    for k, n in enumerate([32769, 40000, 65535, 65536, 70000, 256, 257] * (1 if tier == "quick" else 3)):
         for shape in (shapes if tier != "quick" else [shapes[(k + rnd.randrange(3)) % 3]] + (["uniform"] if n > 32768 else [])):
             yield {"tree": {"bulk": [rnd.randrange(2 ** 31 - 1), n, shape, "lattice"]}, "sel": [rnd.randrange(10 ** 6) for _ in range(6)]}
 
